@@ -90,7 +90,8 @@ def phys(M, mag_s, unit):
 
 
 def shards(tier, seed):
-    out = [("alphabet", "Fraction"), ("alphabet", "float"), ("numbers", "Fraction"), ("numbers", "float"), ("units", "Fraction"), ("units", "float"), ("modes",)]
+    out = [("alphabet", "Fraction"), ("alphabet", "float"), ("alphabet", "Fraction", "after-named-system-queries"), ("alphabet", "Fraction", "default_system=cgs"), ("alphabet", "Fraction", "default_system=imperial"),
+           ("alphabet", "Fraction", "after-default-system-round-trip"), ("numbers", "Fraction"), ("numbers", "float"), ("units", "Fraction"), ("units", "float"), ("modes",)]
     if tier == "thorough":
         for b in range(12):
             out.append(("allunits", b, 12))
@@ -108,10 +109,25 @@ def call(fn):
         return ("exc:" + type(e).__name__, msg)
 
 
-def run_alphabet(acc, nt):
+def run_alphabet(acc, nt, history="fresh"):
     M = model()
-    ureg = regs.default(nt)
+    ureg = regs.default(nt, fresh=(history != "fresh"))
     Q = ureg.Quantity
+    # equality, hash and ordering are about the quantities, not about what the registry was asked before or which
+    # unit system it reports base units in
+    if history == "after-named-system-queries":
+        for _, u in ALPHABET:
+            for sname in ("cgs", "imperial", "US", "atomic"):
+                call(lambda: ureg.get_base_units(u, system=sname))
+    elif history.startswith("default_system="):
+        ureg.default_system = history.split("=", 1)[1]
+    elif history == "after-default-system-round-trip":
+        for _, u in ALPHABET[::3]:
+            call(lambda: hash(Q(1, u)))
+        ureg.default_system = "cgs"
+        for _, u in ALPHABET[::2]:
+            call(lambda: hash(Q(1, u)))
+        ureg.default_system = "mks"
     items = [(m, u, phys(M, m, u)) for m, u in ALPHABET]
     qs = [Q(parse_mag(m, nt), u) for m, u, _ in items]
     n = len(qs)
@@ -121,9 +137,11 @@ def run_alphabet(acc, nt):
         (ma, ua, (dka, va, ka)), (mb, ub, (dkb, vb, kb)) = items[i], items[j]
         a, b = qs[i], qs[j]
         case = {"nt": nt, "a": [ma, ua], "b": [mb, ub]}
+        if history != "fresh":
+            case["registry_history"] = history
         kp = f"{ka}-vs-{kb}"
         if i != j:
-            acc.nt(("pair", nt, i, j))
+            acc.nt(("pair", nt, i, j, history))
         want_eq = dka == dkb and va is not None and vb is not None and va == vb
         exact = nt == "Fraction" or (dka == dkb and va is not None and vb is not None and va != vb and abs(va - vb) > abs(vb) * Fraction(1, 10**9)) or dka != dkb or va is None or vb is None
         o_eq, o_ne = call(lambda: a == b), call(lambda: a != b)
@@ -353,7 +371,7 @@ def run_allunits(acc, block, nblocks):
 def run_shard(acc, shard, tier, seed):
     k = shard[0]
     if k == "alphabet":
-        run_alphabet(acc, shard[1])
+        run_alphabet(acc, shard[1], shard[2] if len(shard) > 2 else "fresh")
     elif k == "numbers":
         run_numbers(acc, shard[1])
     elif k == "units":
@@ -371,7 +389,7 @@ def replay(rec):
     acc = core.Acc(PROPERTY)
     nt = case.get("nt", "Fraction")
     if site[0] in ("quantity-pair", "quantity-law"):
-        run_alphabet(acc, nt)
+        run_alphabet(acc, nt, case.get("registry_history", "fresh"))
         if rec.get("tier") == "thorough" and tuple(site) not in {tuple(v["site"]) for v in acc.violations}:
             for b in range(12):
                 run_allunits(acc, b, 12)
